@@ -137,6 +137,26 @@ func runC17(c *Ctx, r *Report, tier string) {
 			r.Fail("COLUMN", c.fname(wh), "Repeat count", c.ipos(in), "unexpected padding expression "+trunc(t, 140))
 		}
 	}
+	nAW := 0
+	for _, ci := range c.instrsCtx(wh, c.isCallTo("wrapText")) {
+		call, ok := ci.In.(*ssa.Call)
+		if !ok || ci.In.Parent() == who {
+			continue
+		}
+		if strings.Contains(c.term(call.Call.Args[0]), "LongDescription(") {
+			// the command's long description is wrapped to the full width with no prefix
+			w := c.term(c.resolve(call.Call.Args[1]))
+			r.Check(strings.HasPrefix(w, "alignmentInfo.terminalColumns(") && c.term(call.Call.Args[2]) == `""`, "COLUMN", c.fname(wh), "long description wrapped to the terminal width", c.ipos(call), "wrapText(text, terminalColumns, \"\")", "width "+trunc(w, 80))
+			continue
+		}
+		nAW++
+		w := c.term(c.resolve(call.Call.Args[1]))
+		okW := strings.HasSuffix(w, " - "+colExpr+")") && (strings.HasPrefix(w, "(alignmentInfo.terminalColumns(") || strings.HasPrefix(w, "((alignmentInfo.terminalColumns(")) && !strings.Contains(w, "+ alignmentInfo") && strings.Count(w, colExpr) == 1
+		r.Check(okW, "COLUMN", c.fname(wh), "wrap width of argument rows", c.ipos(call), "terminalColumns [− 1] − the description column the continuation prefix uses", "wrap width is "+trunc(w, 160)+": not measured from the column the description starts in, so a full line passes the terminal width")
+		pt := c.term(c.resolve(call.Call.Args[2]))
+		r.Check(pt == "call:strings.Repeat(\" \", "+colExpr+")", "COLUMN", c.fname(wh), "continuation prefix of argument rows", c.ipos(call), "Repeat(\" \", description column)", "prefix is "+trunc(pt, 140))
+	}
+	r.Check(nAW >= 1, "COLUMN", c.fname(wh), "argument rows are wrapped", c.pos(wh.Pos()), "≥ 1 wrapText call for argument descriptions", "none found")
 	r.Check(nArg >= 2, "COLUMN", c.fname(wh), "argument rows use the description column", c.pos(wh.Pos()), "padding and prefix derive from descriptionStart()+paddingBeforeOption", fmt.Sprintf("only %d uses found", nArg))
 
 	// ---- MEASURE
@@ -290,6 +310,45 @@ func runC17(c *Ctx, r *Report, tier string) {
 			}
 		}
 		r.Check(nCut >= 1, "WRAP", wn, "cut sites", c.pos(wt.Pos()), "found", "no line[:pos] cut found")
+		// a hard break never lands inside a character: the back-off to a rune start is a loop over the break
+		// position that is left only with RuneStart(line[pos]) true or pos == 0
+		nRS := 0
+		for _, in := range c.instrs(wt, c.isCallTo("unicode/utf8.RuneStart")) {
+			nRS++
+			call := in.(*ssa.Call)
+			var lp *Loop
+			for _, l := range c.loopsDeep(wt) {
+				if l.Blocks[in.Block()] && (lp == nil || l.size() < lp.size()) {
+					lp = l
+				}
+			}
+			okLoop := false
+			why := "the rune-start test is not inside a loop: the break position is moved back at most once"
+			if lp != nil {
+				// the tested byte is line[pos] with pos a header phi of that loop, decremented on the back edge
+				at := c.term(call.Call.Args[0])
+				posOK := false
+				for _, hi := range lp.Header.Instrs {
+					if ph, isPhi := hi.(*ssa.Phi); isPhi && strings.Contains(at, c.term(ph)) && strings.Contains(c.term(ph), "(phi↺ - 1)") {
+						posOK = true
+					}
+				}
+				exitsOK := true
+				for _, e := range lp.exits() {
+					l, has := c.edgeLit(e.B, e.I)
+					if !has || !(l.Pos && strings.HasPrefix(l.Term, "call:unicode/utf8.RuneStart(") || !l.Pos && strings.HasPrefix(l.Term, "lt(0, phi{")) {
+						exitsOK = false
+						why = "the back-off loop can be left by " + l.String()
+					}
+				}
+				if !posOK {
+					why = "the rune-start test does not look at the byte at the loop's own position " + trunc(at, 80)
+				}
+				okLoop = posOK && exitsOK
+			}
+			r.Check(okLoop, "WRAP", wn, "a hard break is moved back to the start of a character", c.ipos(in), "loop: pos-- while pos > 0 ∧ ¬RuneStart(line[pos]); exits only on those two tests", why)
+		}
+		r.Check(nRS >= 1, "WRAP", wn, "rune-start test present", c.pos(wt.Pos()), "utf8.RuneStart is consulted for the hard break", "no rune-start test: a hard break can split a multi-byte character")
 		c.wrapCutRule(r, "WRAP", wt, lVal)
 		// no shortcut around the paragraph loop: embedded newlines get the continuation prefix on every path
 		for _, ret := range returnsOf(wt) {
